@@ -90,6 +90,11 @@ func genCase(t *rapid.T) Case {
 		c.NoTrusted = false // configured lists and the prefix state need a configured trusted signer
 	}
 	if c.Flaky > 0 {
+		// first-use stampede: every goroutine starts with a handshake naming location 0 (listed / unlisted alternating), so
+		// that several first-use loads of one location overlap while the origin's first answers are error pages
+		for g := range c.Threads {
+			c.Threads[g][0] = Op{Kind: "handshake", Loc: 0, Probe: []int{0, 2}[g%2]}
+		}
 		// With the flaky origin a location may still be unloaded when Cleanup arrives; every later handshake naming it then
 		// runs a first-use load whose commit retries closing the already closed database (5 x 1 s) under the entry lock, so
 		// a dozen queued handshakes exceed any per-call watchdog without anything being stuck. Cleanup during the run is
@@ -536,7 +541,7 @@ var spec = ev.Spec[Case]{
 	ID:          "C13",
 	Gen:         genCase,
 	Run:         runCase,
-	Rule:        "rapid draws a concurrent scenario: 2..16 goroutines with 2..12 operations each from {handshake(one of 1..3 locations; probe listed in both lists / only in the new list / unlisted / listed but naming no CDP), refresh tick, forced (background-style) refresh, config-CRL update, OCSP lookup with a 50 ms cache while the responder flips, pause}, both back-ends, both fetch modes, strict or lenient, optionally location 0 also configured as crl_url, optionally the prefix state 'last refresh failed signature verification', publication of a new list at a drawn point, Cleanup during or after the run, list sizes 1..1500, optionally an origin whose first 1..2 requests per location get an error page, and sleeps/yields at the verif hook sites. Each scenario runs in its own child process built with -race. Oracles: the race detector log is empty; the child exits normally (no fatal error, no panic); every API call returns within the watchdog; verdicts are ones a sequential order could produce (unlisted never revoked, new-only never revoked before publication, a handshake naming the CDP in fetch_actively mode never accepts a serial listed in both lists (with the flaky origin: at most as many such acceptances per location as downloads that got an error page), no errors in lenient mode before shutdown; in fetch_background mode, once no refresh run is under way, every location a handshake announced is in force without any periodic tick (a location first announced by the sibling CA's certificate: after one more handshake with the issuing CA's chain and one refresh run). Non-trivial: >= 2 goroutines touch the same location and a writer (refresh / publication) is present. This explores schedules; it does not cover them.",
+	Rule:        "rapid draws a concurrent scenario: 2..16 goroutines with 2..12 operations each from {handshake(one of 1..3 locations; probe listed in both lists / only in the new list / unlisted / listed but naming no CDP), refresh tick, forced (background-style) refresh, config-CRL update, OCSP lookup with a 50 ms cache while the responder flips, pause}, both back-ends, both fetch modes, strict or lenient, optionally location 0 also configured as crl_url, optionally the prefix state 'last refresh failed signature verification', publication of a new list at a drawn point, Cleanup during or after the run, list sizes 1..1500, optionally an origin whose first 1..2 requests per location get an error page (all goroutines then start with a handshake naming location 0), and sleeps/yields at the verif hook sites. Each scenario runs in its own child process built with -race. Oracles: the race detector log is empty; the child exits normally (no fatal error, no panic); every API call returns within the watchdog; verdicts are ones a sequential order could produce (unlisted never revoked, new-only never revoked before publication, a handshake naming the CDP in fetch_actively mode never accepts a serial listed in both lists (with the flaky origin: at most as many such acceptances per location as downloads that got an error page), no errors in lenient mode before shutdown; in fetch_background mode, once no refresh run is under way, every location a handshake announced is in force without any periodic tick (a location first announced by the sibling CA's certificate: after one more handshake with the issuing CA's chain and one refresh run). Non-trivial: >= 2 goroutines touch the same location and a writer (refresh / publication) is present. This explores schedules; it does not cover them.",
 	Assumptions: []string{"the Go race detector is the oracle for data races; schedules are sampled, not enumerated"},
 }
 
